@@ -39,8 +39,17 @@ def run(ctx):
                        "never shortened (remove / dedup* / retain / truncate / pop / drain / clear / swap_remove / "
                        "split_off) and never walked through a lossy adaptor (filter / skip / take / step_by / last / nth "
                        "/ skip_while / take_while)")
+    ctx.rule("R04-11", "`>` / `>>` written without a space after a quoted word are redirections (`echo 'a'>f`): the tokenizer glues "
+                       "what follows a closing quote onto the quoted word, so reading `>` in the `quote just closed` state must "
+                       "end the word (explored over parse_line's character loop, the analysis of C16 R16-5) - otherwise the "
+                       "operator becomes part of the argument (`a>f` is printed, no file is written)")
+    ctx.rule("R04-12", "`<` and `<<<` are recognised without spaces around them too (`cat <f`, `cat<f`, `cat <<<w`): the recogniser "
+                       "in Command::from_tokens tests more than `token == \"<\"` (a prefix / contains / pattern test), the "
+                       "output side does (tokens_to_redirections matches `>` anywhere in a word)")
     for crate in ctx.crates:
         input_order_rule(ctx, crate)
+        redirect_after_quote_rule(ctx, crate)
+        glued_input_rule(ctx, crate)
         no_drop_rule(ctx, crate)
         keep_all_rule(ctx, crate)
         opener_rule(ctx, crate)
@@ -528,3 +537,36 @@ def keep_all_rule(ctx, crate):
     if not bad:
         ctx.ob("R04-10", "(crate)", "no redirection list is shortened or thinned (%d functions handle one)" % len(users), True,
                key="R04-10|crate|kept", crate=crate.kind, nontrivial=True)
+
+
+def redirect_after_quote_rule(ctx, crate):
+    from .c10 import explore_after_close
+    r = explore_after_close(ctx, crate, "R04-11", ">")
+    if r is None:
+        return
+    b, found, _ = r
+    ok = found["glued"] == 0 and found["ended"] > 0
+    ctx.ob("R04-11", b.path, "reading `>` right after a closing quote ends the quoted word (%d path(s) end it, %d append it)" %
+           (found["ended"], found["glued"]), ok, key="R04-11|%s|redirect-after-quote|>" % b.path, crate=crate.kind,
+           detail=None if ok else "`echo 'a'>f` passes the single argument `a>f` to echo and writes no file")
+
+
+def glued_input_rule(ctx, crate):
+    from .. import etag
+    from .c13 import sink_signature
+    p = "types::Command::from_tokens"
+    descs = set()
+    for b in [crate.fn(p)] + crate.closures_of(p):
+        if b is None:
+            continue
+        for insp in etag.find_inspections(crate, b, p):
+            descs.add(insp.desc)
+    if not ctx.require(bool(descs), "R04-12", "R04-12|anchor", "no operator recogniser found in Command::from_tokens"):
+        return
+    sig = sink_signature(descs)
+    kinds = {x.split(":")[0] for x in sig.split(";") if x.endswith(":<")}
+    ok = bool(kinds - {"eq"})
+    ctx.ob("R04-12", p, "the `<` recogniser handles glued spellings (tests: %s)" % sig, ok,
+           key="R04-12|%s|glued-input-operator" % p, crate=crate.kind,
+           detail=None if ok else "`<` / `<<<` are recognised only as words of their own: `cat <f` reads no file (`<f` is passed as an "
+           "argument), `cat<f` is looked up as a command name")
